@@ -27,7 +27,7 @@ const BAD: &[(&str, usize, bool)] = &[
 
 /// statements that are fine and leave an active region at 0x100 with one byte in it
 const GOOD: &[&str] = &["NOP;", ".du8 1;", "lbl_{n}:", ".dstr \"x;y\";", "MOVS R0, 1;", ".const k_{n}, 3;", ".align 1;", "/* not a statement; */"];
-const SEPS: &[&str] = &[" ", "\n", "\t", "\r\n", "\n\n", "  \t ", " // c\n", " /* \u{e9}\u{20ac} */ ", "/* a\n b */", "\n/*\n/* n */\n*/\t", " //\u{1F600}\n\t"];
+const SEPS: &[&str] = &[" ", "\n", "\t", "\r\n", "\n\n", "  \t ", " // c\n", " /* \u{e9}\u{20ac} */ ", "/* a\n b */", "\n/*\n/* n */\n*/\t", " //\u{1F600}\n\t", " /* \u{BF}\u{FF}\u{FFFD} */ ", "/* \u{80}\u{7FF}\u{800}\u{10FFFF} */"];
 
 fn pos_of(text: &str, off: usize) -> (u32, u32)
 {
